@@ -91,7 +91,7 @@ Definition es6_layout (neg : bool) (sig : list N) (n : Z) : list N :=
      mant ++ [101] ++ (if (e <? 0)%Z then [45] else [43]) ++ dchars (Zdigits 20 (Z.abs e) [])).
 
 Definition in_exact_class (sig : list N) (n : Z) : bool :=
-  andb (Nat.leb (List.length sig) 15) (andb (-290 <=? n)%Z (n <=? 300)%Z).
+  andb (Nat.leb (List.length sig) 15) (andb (-300 <=? n)%Z (n <=? 308)%Z).
 
 (* canonical token of a JSON number literal, None outside the exact class / grammar *)
 Definition es6_normalise_bytes (l : list N) : option (list N) :=
